@@ -1,0 +1,7 @@
+//go:build !verif
+
+package nclient6
+
+// vhook is a scheduling point used by external verification harnesses; it is
+// a no-op unless the package is built with the "verif" tag.
+func vhook(point string) {}
